@@ -117,7 +117,7 @@ EvCompressed ==
                    /\ (acc.nmatch > 0 => acc.minlen >= 3 /\ acc.maxlen <= 258 /\ acc.maxdist <= 32768)
                    /\ Len(SelectSeq(acc.blocks, LAMBDA b : b.fin)) = 1,
                  "format_limits")
-           \o If(valid /\ Prop = "C10" /\ ReqOnlyStored(m.elevel) => acc.btypes \subseteq {0},
+           \o If(valid /\ Prop = "C10" /\ ~HasF(E, "releveled") /\ ReqOnlyStored(m.elevel) => acc.btypes \subseteq {0},
                  "level0_only_stored_blocks")
            \o If(valid /\ Prop = "C10" /\ ReqNoDynamic(m.elevel, m.estrategy) => 2 \notin acc.btypes,
                  "fixed_strategy_no_dynamic_blocks")
